@@ -551,7 +551,8 @@ func sortedKeys(m map[string]bool) []string {
 
 type pathEnd struct {
 	Events []string
-	Term   string // ok | err | panic | loop
+	Term   string // ok | err | unknown | panic | loop
+	Ret    *ssa.Return
 }
 
 // enumPaths walks the CFG of fn from its entry. eval decides branch conditions
@@ -574,15 +575,8 @@ func (w *World) enumPaths(fn *ssa.Function, eval func(cond ssa.Value) (val bool,
 		return nil, true
 	}
 	e.walkFn(fn, nil, 0, func(ev []string, ret *ssa.Return, term string) {
-		if term == "" && ret != nil {
-			term = "ok"
-			if st := w.errState(ret); st == triNonNil {
-				term = "err"
-			} else if st == triUnknown {
-				term = "unknown"
-			}
-		}
-		e.out = append(e.out, pathEnd{append([]string(nil), ev...), term})
+
+		e.out = append(e.out, pathEnd{append([]string(nil), ev...), term, ret})
 	})
 	return e.out, e.complete
 }
@@ -608,6 +602,8 @@ type enumerator struct {
 type pathState struct {
 	onPath map[*ssa.BasicBlock]int
 	phi    map[*ssa.Phi]ssa.Value
+	// callTerm: how an expanded callee returned on this path (ok | err | unknown)
+	callTerm map[*ssa.Call]string
 }
 
 func (e *enumerator) label(in ssa.Instruction, depth int) string {
@@ -765,6 +761,18 @@ func (e *enumerator) walkFn(fn *ssa.Function, ev []string, depth int, k func(ev 
 							k(ev2, nil, term)
 							return
 						}
+						if st.callTerm == nil {
+							st.callTerm = map[*ssa.Call]string{}
+						}
+						oldTerm, hadTerm := st.callTerm[t]
+						st.callTerm[t] = term
+						defer func() {
+							if hadTerm {
+								st.callTerm[t] = oldTerm
+							} else {
+								delete(st.callTerm, t)
+							}
+						}()
 						// continue the caller after the call, outside the callee's environment
 						savedEnv := e.w.inlineEnv
 						e.w.inlineEnv = e.w.inlineEnv[:depthEnv-1]
@@ -775,24 +783,31 @@ func (e *enumerator) walkFn(fn *ssa.Function, ev []string, depth int, k func(ev 
 					return
 				}
 			case *ssa.Return:
-				k(ev, t, "")
+				k(ev, t, e.termOf(t, st, fn))
 				return
 			case *ssa.Panic:
 				k(ev, nil, "panic")
 				return
 			case *ssa.If:
 				v, known := e.w.evalBool(t.Cond, st, e.eval, 0)
-				cs := ""
+				cs, cs2 := "", ""
 				if e.w.branchMarkers {
 					cs = e.w.Canon(t.Cond)
+					// the same condition with phis replaced by the value the path carries
+					e.w.phiSubst = st.phi
+					cs2 = e.w.Canon(t.Cond)
+					e.w.phiSubst = nil
 				}
 				mark := func(ev []string, taken bool) []string {
 					out := append([]string(nil), ev...)
 					if e.w.branchMarkers {
+						pre := "?F:"
 						if taken {
-							out = append(out, "?T:"+cs)
-						} else {
-							out = append(out, "?F:"+cs)
+							pre = "?T:"
+						}
+						out = append(out, pre+cs)
+						if cs2 != cs {
+							out = append(out, pre+cs2)
 						}
 					}
 					return out
@@ -815,6 +830,46 @@ func (e *enumerator) walkFn(fn *ssa.Function, ev []string, depth int, k func(ev 
 		return
 	}
 	walk(fn.Blocks[0], 0, ev)
+}
+
+// termOf: ok | err | unknown for a return; the result of an expanded callee is
+// known from how that callee returned on this path.
+func (e *enumerator) termOf(ret *ssa.Return, st *pathState, fn *ssa.Function) string {
+	switch e.w.errState(ret) {
+	case triNonNil:
+		return "err"
+	case triNil:
+		return "ok"
+	}
+	if idx := errResultIndex(fn); idx >= 0 && idx < len(ret.Results) {
+		v := e.resolve(stripConv(retResult(ret, idx)), st)
+		var call *ssa.Call
+		switch y := stripConv(v).(type) {
+		case *ssa.Call:
+			call = y
+		case *ssa.Extract:
+			call, _ = y.Tuple.(*ssa.Call)
+		}
+		if call != nil {
+			if t, ok := st.callTerm[call]; ok && (t == "ok" || t == "err") {
+				return t
+			}
+		}
+		if c, ok := v.(*ssa.Const); ok {
+			if c.IsNil() {
+				return "ok"
+			}
+			return "err"
+		}
+		// a forwarded result of a module function whose feasible returns agree
+		switch e.w.nilnessOnPath(v, st, e.eval, 0) {
+		case -1:
+			return "ok"
+		case 1:
+			return "err"
+		}
+	}
+	return "unknown"
 }
 
 func isBoolType(t types.Type) bool {
